@@ -10,6 +10,6 @@ CONSTANTS
   TmpChoices <- STmps
   ImgNs <- SImgNs
   Scales = {1, 95}
-INVARIANTS TypeOK LoopInv NoneMissed
+INVARIANTS TypeOK LoopInv NoneMissed ExactImpliesStatement
 PROPERTIES Refines
 CHECK_DEADLOCK FALSE
